@@ -160,8 +160,8 @@ m("c10-no-token", "C10", "O10.5", (R + "trio_runner.py", "return trio.from_threa
 m("c10-other-loop", "C10", "O10.5", (R + "asyncio_runner.py", "asyncio.run_coroutine_threadsafe(payload(), self.asyncio_loop)", "asyncio.run_coroutine_threadsafe(payload(), asyncio.get_event_loop())"))
 
 # ------------------------------------------------------------------ C11
-m("c11-private-loop", "C11", "O11.1", (R + "asyncio_runner.py", "        future = asyncio.run_coroutine_threadsafe(payload(), self.asyncio_loop)\n        return future.result()", "        return asyncio.new_event_loop().run_until_complete(payload())"))
-m("c11-asyncio-run", "C11", "O11.1", (R + "asyncio_runner.py", "        future = asyncio.run_coroutine_threadsafe(payload(), self.asyncio_loop)\n        return future.result()", "        return asyncio.run(payload())"))
+m("c11-private-loop", "C11", "O11.1", (R + "asyncio_runner.py", "        future = asyncio.run_coroutine_threadsafe(payload(), self.asyncio_loop)\n        # ``result`` tests the stored exception for truth: raise it ourselves, so that\n        # an exception that is false (it defines ``__len__`` or ``__bool__``) is not lost\n        exception = future.exception()\n        if exception is not None:\n            raise exception\n        return future.result()", "        return asyncio.new_event_loop().run_until_complete(payload())"))
+m("c11-asyncio-run", "C11", "O11.1", (R + "asyncio_runner.py", "        future = asyncio.run_coroutine_threadsafe(payload(), self.asyncio_loop)\n        # ``result`` tests the stored exception for truth: raise it ourselves, so that\n        # an exception that is false (it defines ``__len__`` or ``__bool__``) is not lost\n        exception = future.exception()\n        if exception is not None:\n            raise exception\n        return future.result()", "        return asyncio.run(payload())"))
 m("c11-thread-in-loop", "C11", "O11.4", (R + "thread_runner.py", "        thread = threading.Thread(\n            target=self._monitor_payload, args=(payload,), daemon=True\n        )\n        thread.start()", "        self.asyncio_loop.call_soon_threadsafe(self._monitor_payload, payload)"))
 
 # ------------------------------------------------------------------ C12
@@ -308,13 +308,13 @@ n("c18-n-keyword-order", "C18", (G + "core/config.py", """        loader.add_con
         )""", """        constructor = yaml_constructor(pipeline_factory, eager=settings.eager)
         loader.add_constructor(constructor=constructor, tag="!" + entry.name)"""))
 n("c11-n-local-loop", "C11", (R + "asyncio_runner.py", """        future = asyncio.run_coroutine_threadsafe(payload(), self.asyncio_loop)
-        return future.result()""", """        loop = self.asyncio_loop
+""", """        loop = self.asyncio_loop
         future = asyncio.run_coroutine_threadsafe(payload(), loop)
-        return future.result()"""))
+"""))
 n("c10-n-local-loop", "C10", (R + "asyncio_runner.py", """        future = asyncio.run_coroutine_threadsafe(payload(), self.asyncio_loop)
-        return future.result()""", """        loop = self.asyncio_loop
+""", """        loop = self.asyncio_loop
         future = asyncio.run_coroutine_threadsafe(payload(), loop)
-        return future.result()"""))
+"""))
 n("c17-n-helper-name", "C17", (M + "format_line.py", """    output_str = name.replace(r",", r"\\,").replace(r" ", r"\\ ")""", """    output_str = _escape_name(name)"""), (M + "format_line.py", """def escape_field(field: T) -> T:""", """def _escape_name(name: str) -> str:
     return name.replace(r",", r"\\,").replace(r" ", r"\\ ")
 
